@@ -192,6 +192,32 @@ Proof.
   - discriminate H.
 Qed.
 
+(* what precedes the analysed pickle in the stream, and what follows it, is never executed *)
+Lemma surroundings_irrelevant s thr pre b rest r bs :
+  s_kind s = KSeekable -> s_off s = List.length pre -> s_at s T_PARSE = pre ++ b ++ rest ->
+  load_model KSeekable b 0 = LOk r -> l_end r = List.length b ->
+  r_loaded (load s thr) = Some bs -> bs = b.
+Proof.
+  intros K O C L E H. apply loaded_is_analysed in H. destruct H as (p & LP & _ & HB & _).
+  subst bs. rewrite K, O, C in LP. rewrite (seekable_prefix pre b rest r L) in LP.
+  inversion LP; subst p; clear LP.
+  unfold analysed_bytes. rewrite K, O, C. cbn [l_end shift_loaded].
+  replace (List.length pre + l_end r - List.length pre) with (List.length b) by lia.
+  rewrite skipn_app, skipn_all, Nat.sub_diag. cbn [skipn app].
+  rewrite firstn_app, firstn_all, Nat.sub_diag. cbn [firstn]. apply app_nil_r.
+Qed.
+
+(* the returned object and the events are the stock unpickler's on the bytes it was handed *)
+Lemma equals_stock s thr v :
+  r_out (load s thr) = Return v ->
+  exists bs, r_loaded (load s thr) = Some bs /\ unpickle bs = (UVal v, r_events (load s thr)).
+Proof.
+  intro H. destruct (load_cases s thr) as [(p & fs & _ & _ & E)|(x & _ & E)]; rewrite E in *.
+  - exists (analysed_bytes s p). split; [reflexivity|]. apply finish_out in H. simpl.
+    destruct (unpickle (analysed_bytes s p)) as [u ev]. simpl in *. subst u. reflexivity.
+  - discriminate H.
+Qed.
+
 Lemma later_content_irrelevant s s' thr :
   s_kind s = s_kind s' -> s_off s = s_off s' -> s_at s T_PARSE = s_at s' T_PARSE ->
   load s thr = load s' thr.
